@@ -1,4 +1,5 @@
 import MuduoVerif.Proofs.TPool
+import MuduoVerif.Proofs.ThreadSkelTie
 /-!
 # C15 — ThreadPool runs each accepted task once, applies back-pressure, always stops
 
@@ -312,5 +313,41 @@ example : ∃ s, PReach (pinit 2 0 demoDepKind demoDep []) s ∧ PBlocked s ∧ 
               · exact absurd rfl ht3
               · rfl
             simp [pinit, this]
+
+end MuduoVerif.C15
+
+namespace MuduoVerif.C15
+
+/-- **primitives_tied**: what `Model/TPool.lean` takes as atomic - the mutex and the two conditions of the pool
+(`MutexLockGuard`, `Condition::wait / notify / notifyAll`), a worker thread that exists and runs `runInThread` once
+`threads_[i]->start()` has returned, and `threads_[i]->join()` that returns once that function has returned
+(`stopJoin i`) - is what `Mutex.h`, `Condition.h` and `Thread.cc` ask pthread for: `lock` = `pthread_mutex_lock` then
+the holder, `wait` = clear the holder; `pthread_cond_wait`; assign the holder, `start` = `started_ = true`; a fresh
+`ThreadData`; `pthread_create(.., &startThread, data)`; `latch_.wait()`, the new thread counts the latch down BEFORE it
+calls the user's function, `join` = `joined_ = true`; `pthread_join` (statement skeletons re-extracted from /repo on
+every run, `Generated/ThreadSkel.lean`, equal to `Model/ThreadSkelDecl.lean`) -/
+theorem primitives_tied :
+    (Gen.ThreadSkel.mutexLock = ThreadSkel.Decl.mutexLock ∧
+     Gen.ThreadSkel.mutexUnlock = ThreadSkel.Decl.mutexUnlock ∧
+     Gen.ThreadSkel.lockGuardCtor = ThreadSkel.Decl.lockGuardCtor ∧
+     Gen.ThreadSkel.lockGuardDtor = ThreadSkel.Decl.lockGuardDtor ∧
+     Gen.ThreadSkel.assertLocked = ThreadSkel.Decl.assertLocked ∧
+     Gen.ThreadSkel.isLockedByThisThread = ThreadSkel.Decl.isLockedByThisThread) ∧
+    (Gen.ThreadSkel.condWait = ThreadSkel.Decl.condWait ∧
+     Gen.ThreadSkel.condNotify = ThreadSkel.Decl.condNotify ∧
+     Gen.ThreadSkel.condNotifyAll = ThreadSkel.Decl.condNotifyAll ∧
+     Gen.ThreadSkel.unassignGuardCtor = ThreadSkel.Decl.unassignGuardCtor ∧
+     Gen.ThreadSkel.unassignGuardDtor = ThreadSkel.Decl.unassignGuardDtor) ∧
+    (Gen.ThreadSkel.threadCtor = ThreadSkel.Decl.threadCtor ∧
+     Gen.ThreadSkel.threadStart = ThreadSkel.Decl.threadStart ∧
+     Gen.ThreadSkel.startThread = ThreadSkel.Decl.startThread ∧
+     Gen.ThreadSkel.runInThread = ThreadSkel.Decl.runInThread ∧
+     Gen.ThreadSkel.threadJoin = ThreadSkel.Decl.threadJoin ∧
+     Gen.ThreadSkel.threadDtor = ThreadSkel.Decl.threadDtor) :=
+  let h := ThreadSkel.skeletons_agree
+  ⟨⟨h.1.2.2.2.2.1, h.1.2.2.2.2.2.1, h.1.2.2.2.2.2.2.2.2.2.2.1, h.1.2.2.2.2.2.2.2.2.2.2.2, h.1.2.2.2.1, h.1.2.2.1⟩,
+   ⟨h.2.1.2.2.1, h.2.1.2.2.2.1, h.2.1.2.2.2.2.1, h.1.2.2.2.2.2.2.2.2.1, h.1.2.2.2.2.2.2.2.2.2.1⟩,
+   ⟨ThreadSkel.skeleton_threadCtor, ThreadSkel.skeleton_threadStart, ThreadSkel.skeleton_startThread,
+    ThreadSkel.skeleton_runInThread, ThreadSkel.skeleton_threadJoin, ThreadSkel.skeleton_threadDtor⟩⟩
 
 end MuduoVerif.C15
